@@ -50,7 +50,8 @@ class ProdCase:
         lo = min(dt for _, dt in self.queries)
         hi = max([dt for _, dt in self.queries] + [int(r.split()[1]) for r in self.impl if r.startswith('ok')])
         d0, d1 = lo // NS_DAY - 3, min(hi // NS_DAY + 3, lo // NS_DAY + 800)
-        return [f'regular {tod} {sk} {rp} {d0} {d1}' for tod, sk, rp in self.time_nodes()]
+        # `narrow`: the executable side condition of `timeRegular_of_narrowB` — where it holds the hypothesis is a theorem
+        return ['narrow'] + [f'regular {tod} {sk} {rp} {d0} {d1}' for tod, sk, rp in self.time_nodes()]
 
     def lines(self) -> list[str]:
         out = [zone_line(self.tz), f'seed {self.seed}']
@@ -261,6 +262,10 @@ def make_case(pid: str, seed: int, tier: str) -> ProdCase:
             ('group', None, [('time', tod, 'skip', 'skip', u), ('interval', ref0, NS_HOUR, None)]),
             ('jitter', 0, 10 * NS_S, u, ('interval', ref0, NS_DAY, None)),
             gen_producer(rnd, zc, ref0, rnd.randint(1, 3)),
+            # the bound is a number of candidates, not a span of time: fast members under a filter nothing passes
+            ('group', u, [('interval', ref0, 60 * NS_S, None), ('interval', ref0, NS_S // 8, None)]),
+            ('offset', 60 * NS_S, u, ('interval', ref0, NS_S // 8, None)),
+            ('group', u, [('interval', ref0 + 1, NS_S, None), ('time', tod, 'after', 'earlier', None)]),
         ]
         rnd.shuffle(shapes)
         for i, sp in enumerate(shapes[:3]):
@@ -336,6 +341,36 @@ def make_sweep_case(zone: str, seed: int) -> ProdCase:
                     case.specs[pid] = ('time', tod % NS_DAY, sk, rp, None)
                     for ref in (t - 30 * 3600, t - 3 * 3600, t - 1, t, t + abs(b - a) // 2, t + 3 * 3600):
                         case.meta['probes'].append((pid, ref * NS_S))
+    return case
+
+
+def make_strict_sweep_case(zone: str, seed: int) -> ProdCase:
+    """C04 sweep: one zone, two of its clock changes, a bare time-of-day trigger whose wall clock time lies inside / at
+    the edges of the affected interval, all 4 x 4 policies, reference instants on a 10-minute grid from before the
+    change to after the affected interval has passed (and 1 ns around the change itself): wherever a wall clock
+    comparison and a comparison of instants disagree"""
+    rnd = random.Random(seed)
+    zc = ZoneCtx(zone)
+    case = ProdCase(zone, 0)
+    case.meta = {'refs': [], 'steps': 0, 'probes': [], 'budget_s': 60.0}
+    if not zc.trans:
+        case.specs[1] = ('time', 12 * NS_HOUR, 'after', 'earlier', None)
+        case.meta['probes'] = [(1, 1_700_000_000 * NS_S)]
+        return case
+    pid = 0
+    for (t, a, b) in rnd.sample(zc.trans, min(2, len(zc.trans))):
+        lo, hi = (t + a, t + b) if b > a else (t + b, t + a)       # affected local interval [lo, hi)
+        width = hi - lo
+        tods = {(x % 86400) * NS_S for x in (lo, (lo + hi) // 2, hi - 60)}
+        refs = [t - width - 1800 + k * 600 for k in range((2 * width + 3600) // 600 + 1)]
+        refs_ns = sorted({r * NS_S for r in refs} | {t * NS_S - 1, t * NS_S, t * NS_S + 1})
+        for tod in sorted(tods):
+            for sk in SKIPPED:
+                for rp in REPEATED:
+                    pid += 1
+                    case.specs[pid] = ('time', tod % NS_DAY, sk, rp, None)
+                    for ref in refs_ns:
+                        case.meta['probes'].append((pid, ref))
     return case
 
 
@@ -515,7 +550,16 @@ class ProdProp:
             run.stats['oracle_only_cases'] = run.stats.get('oracle_only_cases', 0) + 1
             return
         run.traces_validated += 1
-        for r in getattr(case, 'regular', []):
+        regs = list(getattr(case, 'regular', []))
+        narrow = bool(regs) and regs.pop(0) == 'narrow yes'
+        for r in regs:
+            if r == 'regular ok':
+                run.stats['hyp_TimeRegular_by_theorem' if narrow else 'hyp_TimeRegular_by_evaluation_only'] = \
+                    run.stats.get('hyp_TimeRegular_by_theorem' if narrow else 'hyp_TimeRegular_by_evaluation_only', 0) + 1
+            elif narrow:
+                # the theorem says this cannot happen: the driver's evaluation contradicts `timeRegular_of_narrowB`
+                run.findings.append(Finding('correspondence', f'[zone {case.tz}] narrow table but TimeRegular evaluation failed: {r}',
+                                            {**case.to_json(), 'broken': 'model self-consistency narrow/regular'}))
             key = 'hyp_TimeRegular_' + ('ok' if r == 'regular ok' else 'fail')
             run.stats[key] = run.stats.get(key, 0) + 1
             if r != 'regular ok':
@@ -592,7 +636,7 @@ class ProdProp:
             nz = len(zones()) if run.tier == 'thorough' else len(SHAPE_ZONES)
             for i in range(nz):
                 yield -(1 + i + (run.seed % 1000) * 1000)      # sweep cases: negative seeds select the zone
-        if self.pid == 'C13':
+        if self.pid in ('C13', 'C04'):
             from tz import SHAPE_ZONES, zones
             nz = len(zones()) if run.tier == 'thorough' else len(SHAPE_ZONES)
             for i in range(nz):
@@ -605,6 +649,10 @@ class ProdProp:
             from tz import SHAPE_ZONES, zones
             zl = zones() if tier == 'thorough' else SHAPE_ZONES
             case = make_sweep_case(zl[((-seed - 1) % 1000) % len(zl)], -seed)
+        elif self.pid == 'C04' and seed < 0:
+            from tz import SHAPE_ZONES, zones
+            zl = zones() if tier == 'thorough' else SHAPE_ZONES
+            case = make_strict_sweep_case(zl[((-seed - 1) % 1000) % len(zl)], -seed)
         elif self.pid == 'C13' and seed < 0:
             from tz import SHAPE_ZONES, zones
             zl = zones() if tier == 'thorough' else SHAPE_ZONES
